@@ -311,3 +311,131 @@ def run(ctx, rep):
         if not ok:
             rep.violation('X5', vkey('X5', SK.name, 'skip-rule', ''), SK.loc(SK.span),
                           'entry skipping no longer is `deleted || (skip_volume && volume label)`')
+
+
+# ---------------------------------------------------------------------------------------------
+# X7  every table access of a FAT width seeks to  cluster * bits / 8  (entry offset formula of the specification)
+
+WIDTH_FNS = {12: 'u8', 16: 'u16', 32: 'u32'}
+TABLE_FNS = ('get_raw', 'set_raw', 'find_free', 'count_free')
+
+
+def _expr_tree(fn, defs, o, depth=0):
+    """('var',) | ('const', n) | (op, left, right) for the integer expression an operand was computed from; None when it
+    contains anything but + * / of one variable and constants (copies, widening casts and checked-op pairs are looked
+    through)"""
+    from model import op_const, op_place
+    if depth > 24:
+        return None
+    c = op_const(o)
+    if c is not None:
+        return ('const', c['val']) if c.get('val') is not None else None
+    p = op_place(o)
+    if p is None:
+        return None
+    idx = [e for e in p['p'] if 'f' in e]
+    if p['p'] and not (len(p['p']) == 1 and idx and idx[0].get('f') == 0):
+        return None
+    loc = fn.locals[p['l']]
+    if (loc.get('name') or '') == 'cluster' or (1 <= p['l'] <= fn.argc and (loc.get('name') or '').endswith('cluster')):
+        return ('var', )
+    d = defs.get(p['l'])
+    if d is None:
+        return None
+    if d[0] == 'call':
+        t = d[1]
+        if (t.get('callee') or '') in ('core::convert::From::from', 'core::convert::Into::into') and len(t['args']) == 1:
+            return _expr_tree(fn, defs, t['args'][0], depth + 1)
+        return None
+    rv = d[1]
+    if rv['k'] in ('use', 'cast'):
+        return _expr_tree(fn, defs, rv['a'], depth + 1)
+    if rv['k'] == 'binop':
+        op = rv['op'].replace('WithOverflow', '').replace('Unchecked', '')
+        if op in ('Add', 'Mul', 'Div', 'Shl', 'Shr'):
+            a, b = _expr_tree(fn, defs, rv['a'], depth + 1), _expr_tree(fn, defs, rv['b'], depth + 1)
+            if a is None or b is None:
+                return None
+            return (op, a, b)
+    return None
+
+
+def _eval_tree(t, c):
+    if t[0] == 'var':
+        return c
+    if t[0] == 'const':
+        return t[1]
+    a, b = _eval_tree(t[1], c), _eval_tree(t[2], c)
+    return {'Add': a + b, 'Mul': a * b, 'Div': a // b if b else 0, 'Shl': a << b, 'Shr': a >> b}[t[0]]
+
+
+def _divisors(t):
+    if t[0] in ('var', 'const'):
+        return []
+    out = _divisors(t[1]) + _divisors(t[2])
+    if t[0] == 'Div' and t[2][0] == 'const':
+        out.append(t[2][1])
+    if t[0] == 'Shr' and t[2][0] == 'const':
+        out.append(1 << t[2][1])
+    if t[0] in ('Div', 'Shr') and t[2][0] != 'const':
+        out.append(None)
+    return out
+
+
+def run_entry_offsets(ctx, rep):
+    """The closed-form expression of every seek offset in the per-width table code is extracted from the MIR (only + * / and
+    shifts by constants of the cluster number are admitted) and compared with the specification's  cluster * bits / 8 :
+    equal on one full period of its divisors and with the same increment per period, hence equal for every cluster."""
+    from rules.c02 import single_def
+    from model import op_place
+    facts = ctx.facts
+    n = 0
+    for bits, w in WIDTH_FNS.items():
+        for short in TABLE_FNS:
+            name = '<fatfs::table::Fat<%s> as fatfs::table::FatTrait>::%s' % (w, short)
+            fn = facts.fns.get(name)
+            if fn is None:
+                rep.machinery('ANCHOR-MISSING ' + name)
+                continue
+            defs = single_def(fn)
+            seeks = [(b, t) for b, t in fn.calls() if (t.get('callee') or '').endswith('io::Seek::seek')]
+            for b, t in seeks:
+                # the operand of SeekFrom::Start(..)
+                p = op_place(t['args'][1])
+                d = defs.get(p['l']) if p is not None and not p['p'] else None
+                tree = None
+                if d is not None and d[0] == 'stmt' and d[1]['k'] == 'agg' and d[1].get('variant') == 'Start':
+                    tree = _expr_tree(fn, defs, d[1]['ops'][0])
+                n += 1
+                if tree is None:
+                    rep.oblige('X7', '%s|bb%d' % (name, b), ok=False, nontrivial=True)
+                    rep.violation('X7', vkey('X7', name, 'offset-form', t['span']['snip']), fn.loc(t['span']),
+                                  'the table offset in %s is not a closed form (+ * / by constants) of the cluster number: not '
+                                  'comparable with the specification\'s cluster * %d / 8' % (name, bits))
+                    continue
+                divs = _divisors(tree)
+                ok = None not in divs
+                period = 1
+                for dv in divs:
+                    if dv:
+                        from math import gcd
+                        period = period * dv // gcd(period, dv)
+                period = max(period, 8)
+                spec = lambda c: c * bits // 8
+                if ok:
+                    ok = all(_eval_tree(tree, c) == spec(c) for c in range(0, 2 * period + 1))
+                rep.oblige('X7', '%s|bb%d' % (name, b), ok=ok, nontrivial=True,
+                           sample={'fn': name, 'at': fn.loc(t['span']), 'expression': str(tree), 'specification': 'cluster * %d / 8' % bits})
+                if not ok:
+                    rep.violation('X7', vkey('X7', name, 'entry-offset', ''), fn.loc(t['span']),
+                                  '%s seeks to %s for cluster c; the FAT%d entry of cluster c is at byte c * %d / 8 of the table' %
+                                  (name, tree, bits, bits))
+    rep.counts['X7.seeks'] = n
+
+
+_run_8 = run
+
+
+def run(ctx, rep):
+    _run_8(ctx, rep)
+    run_entry_offsets(ctx, rep)
